@@ -3,7 +3,8 @@ pub mod c01;
 pub mod c03;
 pub mod c14;
 pub mod c15;
+pub mod c20;
 
 pub fn all() -> Vec<PropDef> {
-    vec![c01::def(), c03::def(), c14::def(), c15::def()]
+    vec![c01::def(), c03::def(), c14::def(), c15::def(), c20::def()]
 }
